@@ -204,8 +204,10 @@ def law_formulas(eng, res, rule="R-LAW-FORMULA"):
             if any(getattr(t, "name", "") in LAWS for t in tg):
                 n += 1
                 kws = sorted(k.arg or "**" for k in c.keywords)
-                res.ob(rule, init, f"{ci.name}:law-object", "the law object is created with its name only (no truncated support a / b, no shapes override)", c,
-                       set(kws) <= {"name", "longname"} and not c.args, f"keywords {kws}")
+                res.ob(rule, init, f"{ci.name}:law-object", "the law object is created with its name (and at most support bounds): no shapes / values / increment override", c,
+                       set(kws) <= {"name", "longname", "a", "b"} and not c.args, f"keywords {kws}")
+                if set(kws) & {"a", "b"}:
+                    res.info(f"{init.qualname}: the law object is given support bounds {sorted(set(kws) & {'a', 'b'})} — the probability mass outside them is a numerical fact that is not decided here")
     # families without an own draw must not override it at all (their draw is the base class's rvs on the frozen object)
     for ci in c09.families(eng):
         own = ci.method("draw_mw")
@@ -232,6 +234,11 @@ def check(eng, res):
     res.floor("R-DRAW-PARAMS", n, 3)
     n = interval(eng, res)
     res.floor("R-INTERVAL", n, 4)
+    from . import c10 as _c10
+
+    res.doc("R-NO-SHARED-MUTABLE", "each distribution object owns the law object it configures: nothing bound once per class is re-configured through an instance")
+    _c10.shared_mutable(eng, res)
+    _c10.shared_class_object(eng, res, only_classes=["Distribution", "rv_discrete", "rv_continuous"])
     n = law_formulas(eng, res)
     res.floor("R-LAW-FORMULA", n, 7)
     c15.unknown_reject(eng, res)
